@@ -99,7 +99,9 @@ Definition step (s : st) (r : list Z) : option st :=
     | Some (k, p) =>
         if key_eqb k (rkey r) then
           if ((rep r =? 0) && (pf p 0 =? 0))
-             || ((pf p 0 =? pf r 0) && (sf p 9 =? sf r 9) && (sf p 11 =? sf r 11) && (sf p 13 =? sf r 13) && (sf p 15 =? sf r 15))
+             || ((pf p 0 =? pf r 0) && (sf p 9 =? sf r 9) && (sf p 11 =? sf r 11) && (sf p 13 =? sf r 13) && (sf p 15 =? sf r 15)
+                 (* ... nor are they evidence of a live peer: the Idle and KeepAlive timers stay as they were *)
+                 && (pf p 19 =? pf r 19) && (pf p 23 =? pf r 23))
           then Some {| lastp := lastp s; resp := resp s; connected := connected s; born := born s; closed := closed s;
                        genuine := genuine s; lossy := lossy s; restarted := restarted s; gone := gone s; rotating := rotating s;
                        shortcid := shortcid s; offpath := offpath s; pendu := None |}
@@ -137,8 +139,10 @@ Definition step (s : st) (r : list Z) : option st :=
       else if (fld r 5 =? 6) && restarted s then Some s
       (* the server side of the pair talks to the attacker's address: without a faithful relay both ends time out *)
       else if (fld r 5 =? 6) && existsb (Z.eqb ((ridx r) mod 1000)) (offpath s) then Some s
-      (* a replayed Initial opens a fresh attempt that can only time out *)
-      else if (fld r 5 =? 6) && negb (existsb (key_eqb (rkey r)) (connected s)) then Some s
+      (* a replayed Initial opens a fresh attempt ON THE SERVER that can only time out (a client attempt
+         over a path that delivers must complete: forged Retry / Version Negotiation packets that do not
+         verify leave it able to accept the genuine ones) *)
+      else if (fld r 5 =? 6) && (rep r =? 1) && negb (existsb (key_eqb (rkey r)) (connected s)) then Some s
       else None
     else if fld r 4 =? 2 then Some {| lastp := lastp s; resp := resp s; connected := rkey r :: connected s; born := born s; closed := closed s; genuine := genuine s; lossy := lossy s; restarted := restarted s; gone := gone s; rotating := rotating s; shortcid := shortcid s; offpath := offpath s; pendu := pendu s |}
     else Some s
